@@ -360,20 +360,12 @@ def rule_st6(ctx: Ctx) -> RuleResult:
 def rule_wc1(ctx: Ctx) -> RuleResult:
     r = RuleResult("WC-1", "frame: only MemoryStore writes its arrays; the store is only called from mux on_next handlers")
     prog = ctx.program
-    handler_fns = set()
+    # the mux on_next handlers and every function they reach (a flush routine shared by the Completed and Error
+    # branches, per-event functions chosen through a dispatch table, handlers handed to a shared operator template)
+    from .common import reached_functions
+    handler_fns = {f for f in reached_functions(ctx, mux_only=True)}
     for site in ctx.mux_sites():
-        for spec in site.handler_specs("on_next"):
-            handler_fns.add(spec.fn)
-    # helpers reached from a handler (a flush routine shared by the Completed and Error branches, per-event functions
-    # chosen through a dispatch table, handlers handed to a shared operator template): every function the path
-    # enumeration enters on some path of some handler
-    for site in ctx.mux_sites():
-        for spec in site.handler_specs("on_next"):
-            for kind, cfg, paths in ctx.all_paths(spec):
-                for p in paths:
-                    for e in p.trace:
-                        if e.k == "inline":
-                            handler_fns.add(e.fn)
+        handler_fns.discard(site.subscribe_fn)
     ops = {"add_key", "del_key", "get_state", "set_state", "add_map", "del_map", "get_map", "iterate_map", "iterate_state"}
     for rel, m in sorted(prog.by_relpath.items()):
         for node in ast.walk(m.tree):
